@@ -295,6 +295,8 @@ type entry struct {
 	epoch        int
 	current      bool
 	seq          int // acceptance order
+	offered      bool      // a response of S to a poll of C that ended without error contained it (c16_expiry_test.go)
+	realExp      time.Time // short-lived for real: the exp claim of the JWT passes during the run (zero: validity of hours)
 }
 
 type model struct {
@@ -686,6 +688,8 @@ func (w *world) classifyExtra(who, jti string) string {
 		return "C16/client/search-returns-unverified"
 	case e.epoch != w.m.epoch:
 		return "C16/" + who + "/search-returns-entry-of-old-seed"
+	case !e.current && who == "client" && w.m.successorOffered(e):
+		return "C16/convergence/superseded-entry-kept/successor-offered-to-poll"
 	case !e.current && who == "client" && w.m.successorExpired(e):
 		return "C16/convergence/superseded-entry-kept/successor-expired-before-poll"
 	case !e.current:
@@ -711,6 +715,7 @@ func (w *world) ageOnClient() {
 func (w *world) poll(step string, full bool) {
 	defer track("poll")()
 	w.beforeClientPass()
+	offer := w.offerToClient()
 	var err error
 	if full {
 		err = discovery.VerifClientRefresh(w.cm)
@@ -722,6 +727,8 @@ func (w *world) poll(step string, full bool) {
 	if err != nil {
 		w.r.Unspecified("poll-returned-error")
 		w.note("poll error: %v", err)
+	} else {
+		w.markOffered(offer)
 	}
 	w.cPolledEpoch = w.m.epoch
 	w.ageOnClient()
@@ -744,6 +751,9 @@ func (w *world) checkClientSound(step string) {
 			bad = w.classifyExtra("client", f.id)
 		case e.epoch != w.m.epoch && w.cPolledEpoch == w.m.epoch:
 			bad = "C16/client/search-returns-entry-of-old-seed"
+		case !e.current && w.m.successorOffered(e):
+			// C may be stale, but not about a replacement that a completed poll of its own was handed
+			bad = w.classifyExtra("client", f.id)
 		}
 		if seen[f.subject] {
 			bad = "C16/client/search-two-entries-per-subject"
@@ -1057,7 +1067,7 @@ func (w *world) anySubject() *subject { return w.subj[w.rnd.Intn(len(w.subj))] }
 
 func defects() []defect {
 	str := func(tok, jti string) (any, string, bool) { return tok, jti, true }
-	return []defect{
+	return append([]defect{
 		{class: "json-ld-format", build: func(w *world) (any, string, bool) {
 			s := w.anySubject()
 			id := fmt.Sprintf("%s#ld-%d", s.h.DID, w.nextID())
@@ -1221,7 +1231,7 @@ func defects() []defect {
 			return str(w.signVP(p))
 		}},
 		{class: "exact-duplicate", build: nil}, // handled in evDefect (needs the stored token)
-	}
+	}, retractionDefects()...)
 }
 
 func (w *world) evDefect(d defect) {
@@ -1315,12 +1325,17 @@ func TestCheck(t *testing.T) {
 		"Entries the client cannot verify: registrations whose signer or credential issuer is a did:web identity hosted by the harness are accepted by the server, then the document fails (connection error / 503 until a heal event; 404 / other key for good) " +
 		"before the client fetches the entry; one case per unverified-mix scenario (4-6 such entries, revoked-afterwards and verifiable ones stored by the client in a seeded order, on two services, outages ending in two steps; distinct by the order; " +
 		"the client's search must return exactly the entries it had a pass to verify). Several credentials: on a third service whose definition asks for three credentials, one case per (per-credential admission clause x index of the offending credential x expiry of its neighbours), " +
-		"each next to a control presentation that is accepted; the reference decision follows from the generated credentials.")
+		"each next to a control presentation that is accepted; the reference decision follows from the generated credentials. " +
+		"Real expiry: one case per real-expiry scenario (a subject replaces the entry the client holds by a retraction / refresh valid for 4-6 s and the client polls only after that successor expired for real while the server, which prunes on the next registration only, still hands it out; " +
+		"next to a short-lived first registration, short-lived entries fetched while valid and a long-lived refresh, in a seeded order = distinct; non-trivial when the server still served an expired entry). " +
+		"Every poll at quiescence is preceded by a GET of what the server answers after the client's timestamp: once such a poll completed, the client must not list an entry whose replacement was in that answer. " +
+		"Retraction sweep: every admission clause applicable to a presentation without credentials, violated by an otherwise correct retraction of a live entry (validity beyond the maximum by minutes..years, no / past expiry, audience, id, signature), and the other retraction classes, each followed by a list comparison; controls with the longest allowed and a short validity are accepted.")
 	r.Require(r.Pick(150, 1500), r.Pick(60, 300))
 	r.Assume("SQLite with a single connection: database transactions are serialised; row-lock behaviour of other engines is not exercised")
 	r.Assume("expiry is virtual: presentation_expiration is aged by SQL in the server's table and in the client's copy; the JWT exp claim itself is not in the past")
 	r.Assume("did:web documents are served by a transport installed behind the nodes' did:web resolvers (no sockets); an outage is that transport failing the request; faults start and end only while no request is in flight")
 	r.Assume("the list of the third service (several credentials) is emptied in both databases after each sweep of 3 cases, to keep the client's periodic re-verification of everything it holds cheap")
+	r.Assume("real expiry: the run sleeps until the exp claim (4-6 s) of the short-lived presentations has passed by more than a second; the verdict depends only on that having happened, not on how long anything took")
 	r.Assume("a server reset is produced by emptying the service's rows and seed in the server's database (the state of a fresh database); once per server/client pair the server node is really reinstalled on an empty data directory")
 
 	// hosted did:web documents with injectable outages: what every node's did:web resolver is built on (set again before each node starts)
@@ -1376,6 +1391,12 @@ func TestCheck(t *testing.T) {
 	}
 	if r.Get("race_episodes_steered") == 0 || r.Get("registrations_inside_get_window") == 0 {
 		r.Fatalf("no registration was steered into the window of get: the hook was never reached")
+	}
+	if r.Get("really_expired_entries_offered_to_client_polls") == 0 || r.Get("really_expired_entries_still_served") == 0 {
+		r.Fatalf("no entry that expired for real was handed to a client poll: the real-expiry scenarios observed nothing")
+	}
+	if r.Get("defective_retraction-validity-exceeds-max") == 0 || r.Get("retraction_sweep_defects") < 8 {
+		r.Fatalf("the retraction sweep posted %d defective retractions: the retraction kind of the admission clauses was not exercised", r.Get("retraction_sweep_defects"))
 	}
 	if hits == 0 {
 		r.Fatalf("no status list was ever fetched: revoked / unverifiable cases observed nothing")
@@ -1485,6 +1506,12 @@ func (w *world) run(from, to int) {
 		case (h+w.id)%5 == 0:
 			w.unverifiedMix()
 			kinds = append(kinds, "unverified-mix")
+		case (h+w.id)%5 == 1:
+			w.realExpiry()
+			kinds = append(kinds, "real-expiry")
+		case (h+w.id)%5 == 3:
+			w.retractionSweep(allDefects)
+			kinds = append(kinds, "retraction-sweep")
 		case (h+w.id)%5 == 2:
 			w.resetOvertake()
 			kinds = append(kinds, "reset-overtake")
